@@ -84,8 +84,10 @@ PARSE_IDS_FUNCS = ["V10_parse.build_functions.*", "V10_parse.fn:build_functions"
 PARSE_IDS_GLOBALS = ["V6b_api2.ModuleGlobals.new.*", "V6b_api2.fn:ModuleGlobals::new", "V6b_api2.fn:lemma_n_glob_imports_le", "V6b_api2.fn:ModuleImports::iter"]
 PARSE_IDS_MEMS = ["V6b_api2.build_memories.*", "V6b_api2.fn:Module::build_memories", "V6b_api2.fn:Memory::new", "V6b_api2.fn:lemma_n_mem_imports_le"]
 PARSE_IDS_GLUE = "that the three re-indexing preconditions hold for a freshly parsed module is decided for each index space on the code that builds it at the end of parse_internal (functions: V10 region build_functions; globals: ModuleGlobals::new; memories: V6b region build_memories - ids are positions, imports first, counters = numbers of imports of each kind); that these pieces are put into the Module unchanged (the struct literal at the end of parse_internal) is read off the text"
+V13_CONSTEXPR = ["V13_constexpr.to_wasmencoder_type.*", "V13_constexpr.fn:InitExpr::to_wasmencoder_type"]
+V13_TRUST = "TRUSTED model of wasm-encoder's instruction encoder (V13): a byte buffer is viewed as the sequence of constant instructions encoded into it and `<instruction>.encode(&mut bytes)` appends one; rule R26 writes each such expression as a call of a named emitter (one per variant / field order), so which variant is written with which operands is read off the code; ConstExpr::raw keeps the bytes; wasmparser's UnpackedIndex is one of module index / rec-group index / core type id"
 V12_CUSTOM = ["V12_sections.encode_custom_sections.*", "V12_sections.fn:Module::encode_custom_sections", "V12_sections.fn:CustomSections::iter"]
-V12_TRUST = ["TRUSTED model of the wasm-encoder section builders (V12): an export / data / custom section under construction is the sequence of entries handed to it; ExportKind::from(ExternalKind) is faithful; InitExpr::to_wasmencoder_type is faithful (numeric constants: Kani K4)",
+V12_TRUST = ["TRUSTED model of the wasm-encoder section builders (V12): an export / data / custom section under construction is the sequence of entries handed to it; ExportKind::from(ExternalKind) is faithful; InitExpr::to_wasmencoder_type is faithful (assumed in V12; PROVED in V13 against the instruction-encoder model, numeric constants also by Kani K4, the index-carrying ones by Kani K6 in the thorough tier)",
              "V12 names three expressions of the data loop and one statement of the custom-section loop by rule R11 (iterator adapters / generic builders are outside Verus): their contracts are assumed; V12 assumes the InitInstr::fix_id_mapping contract that V3 proves",
              "rule R16: the loops / statements are cut out of encode_internal by text anchors and wrapped in declared headers; the side-effect records they also build (C23) are not specified"]
 V11_CODE = ["V11_emit.encode_function_section.*", "V11_emit.fn:Module::encode_function_section", "V11_emit.fn:Function::kind", "V11_emit.encode_code_section.*", "V11_emit.fn:Module::encode_code_section", "V11_emit.fn:Functions::is_deleted", "V11_emit.fn:Functions::get_kind", "V11_emit.fn:Functions::get_mut",
@@ -107,13 +109,14 @@ PROPS = {
     },
     "C02": {
         "title": "Unmodified round trip preserves module content",
-        "units": ["V3_remap", "V9b_conv", "V11_emit", "V12_sections", "V10_parse"],
-        "obligations_extra": V10_PARSE_SECTIONS + V11_EMIT + V11_CODE + V12_TAGS + V12_TABLES + V12_ELEMS + V12_CEXPR + V12_IMPORTS + V12_EXPORTS + V12_START + V12_DATA + V12_GLOBALS + V12_MEMS + V12_CUSTOM
+        "units": ["V3_remap", "V9b_conv", "V11_emit", "V12_sections", "V10_parse", "V13_constexpr"],
+        "obligations_extra": V13_CONSTEXPR + V10_PARSE_SECTIONS + V11_EMIT + V11_CODE + V12_TAGS + V12_TABLES + V12_ELEMS + V12_CEXPR + V12_IMPORTS + V12_EXPORTS + V12_START + V12_DATA + V12_GLOBALS + V12_MEMS + V12_CUSTOM
                              + ["V12_sections.encode_type_section.groups_in_order_explicit_ones_as_one_rec_entry", "V12_sections.fn:Module::encode_type_section", "V12_sections.encode_names.*", "V12_sections.fn:Module::encode_names"],
         "kani": ["k1_valtype_roundtrip", "k1_valtype_roundtrip_exn_cont", "k1_valtype_encoder_matches_upstream", "k4_v128_bytes_preserved", "k4_ieee32_from_float_bits", "k4_ieee64_from_float_bits"],
-        "obligations": ["K:k1_*", "K:k4_*", "V3_remap.lemma.identity_remap_is_noop", "V3_remap.fn:lemma_identity_remap_is_noop", "V3_remap.fix_op_id_mapping.*", "V3_remap.fn:fix_op_id_mapping", "V3_remap.update_*", "V3_remap.fn:update_*", "V3_remap.refers_to_*", "V3_remap.fn:refers_to_*",
+        "kani_thorough": ["k5_spec_global_get", "k5_spec_ref_func", "k5_spec_struct_new", "k5_spec_struct_new_default", "k5_spec_array_new", "k5_spec_array_new_default", "k5_spec_ref_i31"],   # about 4 min of CBMC together: thorough tier only
+        "obligations": ["K:k5_spec_*"] + ["K:k1_*", "K:k4_*", "V3_remap.lemma.identity_remap_is_noop", "V3_remap.fn:lemma_identity_remap_is_noop", "V3_remap.fix_op_id_mapping.*", "V3_remap.fn:fix_op_id_mapping", "V3_remap.update_*", "V3_remap.fn:update_*", "V3_remap.refers_to_*", "V3_remap.fn:refers_to_*",
                         "V9b_conv.*.into_wasmparser.*", "V9b_conv.fn:* as From::from"],
-        "glue": V11_TRUST + V12_TRUST + ["of parse_internal the import, function, memory, global, export, element, data and tag arms are regions under contract, with InitExpr::eval (every constant instruction is read into its IR counterpart with its own immediates in their own positions; anything else is an error) (the import arm with ModuleImports::new: each counter is the number of imports of its kind, nothing counted as added) (V10: the IR holds exactly the entries the section reader yields, in order, with their own contents, and a read error anywhere - also in an element segment's own item reader - makes the parse fail), against a TRUSTED model of wasmparser's section readers (a reader denotes a finite sequence of entries / read errors and iterating yields it front to back; `collect` of a reader is ASSUMED to gather it); the `.map(closure).collect::<Result<_, _>>()?` / `extend(..map(..))` chains of those arms are written as loops by rules R24 / R25; Result::and_then is ASSUMED with its textbook meaning; of the table arm only the number of stored tables and the error behaviour are decided (what a stored table holds is computed by a closure handed to Result::map, whose result Verus does not know without an annotation in the source); the type and code-entry arms, the start / data-count payloads, the name and custom sections are NOT under contract; of encode_internal every section's emission loop is a region under contract (V11 / V12) against TRUSTED models of wasm-encoder's section builders; that the sections are appended to the module in the standard order, and the `if !..is_empty()` guards around them, are read off the text",
+        "glue": [V13_TRUST] + V11_TRUST + V12_TRUST + ["of parse_internal the import, function, memory, global, export, element, data and tag arms are regions under contract, with InitExpr::eval (every constant instruction is read into its IR counterpart with its own immediates in their own positions; anything else is an error) (the import arm with ModuleImports::new: each counter is the number of imports of its kind, nothing counted as added) (V10: the IR holds exactly the entries the section reader yields, in order, with their own contents, and a read error anywhere - also in an element segment's own item reader - makes the parse fail), against a TRUSTED model of wasmparser's section readers (a reader denotes a finite sequence of entries / read errors and iterating yields it front to back; `collect` of a reader is ASSUMED to gather it); the `.map(closure).collect::<Result<_, _>>()?` / `extend(..map(..))` chains of those arms are written as loops by rules R24 / R25; Result::and_then is ASSUMED with its textbook meaning; of the table arm only the number of stored tables and the error behaviour are decided (what a stored table holds is computed by a closure handed to Result::map, whose result Verus does not know without an annotation in the source); the type and code-entry arms, the start / data-count payloads, the name and custom sections are NOT under contract; of encode_internal every section's emission loop is a region under contract (V11 / V12) against TRUSTED models of wasm-encoder's section builders; that the sections are appended to the module in the standard order, and the `if !..is_empty()` guards around them, are read off the text",
                  "InitExpr::eval / to_wasmencoder_type (constant expressions) are not under contract: only the bit-exactness of the float / v128 wrappers they use is proved"],
         "design_ref": "DESIGN.md §4 K1 K4, §5 C02",
         "level_text": "Instructions survive encode's in-place id rewrite when nothing was edited (identity maps leave every operator unchanged: corollary of the exact remap contract), value types survive the IR, float / v128 constants keep their bits. Of the sections, the ENCODE side is under contract region by region (every stored type group, import, function type index, table, memory, tag, global, export, start function, element segment, function body, data segment and custom section is emitted in stored order with its own contents); of the PARSE side the import, function, memory, global, export, element, data and tag arms are under contract (the IR holds exactly what the section readers yield, in order), the other arms are glue.",
@@ -178,25 +181,25 @@ PROPS = {
     },
     "C06": {
         "title": "Function references stay bound to the same function across edits",
-        "units": ["V2_reindex", "V3_remap", "V6_api", "V11_emit", "V12_sections", "V10_parse"],
+        "units": ["V2_reindex", "V3_remap", "V6_api", "V11_emit", "V12_sections", "V10_parse", "V13_constexpr"],
         "kani_thorough": ["k5_spec_ref_func"],
         "obligations": ["K:k5_spec_ref_func"] + V2_GENERIC + v2_inst("Function", "Functions") + V6_FUNCS + [
             "V3_remap.refers_to_func.*", "V3_remap.fn:refers_to_func", "V3_remap.update_fn_instr.*", "V3_remap.fn:update_fn_instr",
             "V3_remap.fix_op_id_mapping.*", "V3_remap.fn:fix_op_id_mapping", "V3_remap.InitInstr.*", "V3_remap.fn:InitInstr::fix_id_mapping",
             "V3_remap.fn:lemma_families_disjoint"],
-        "obligations_extra": PARSE_IDS_FUNCS + V12_CEXPR + V12_ELEMS + V12_TABLES + V12_IMPORTS + V12_EXPORTS + V12_START + V12_DATA + ["V11_emit.fn:encode_function_body", "V11_emit.update_ids_and_encode.*", "V11_emit.fn:update_ids_and_encode"],
-        "glue": [PARSE_IDS_GLUE] + V11_TRUST + V12_TRUST + [ENCODE_GLUE, "export / start / element-segment remapping lines in encode_internal", "'output validates' (wasmparser validator) is not decided"],
+        "obligations_extra": V13_CONSTEXPR + PARSE_IDS_FUNCS + V12_CEXPR + V12_ELEMS + V12_TABLES + V12_IMPORTS + V12_EXPORTS + V12_START + V12_DATA + ["V11_emit.fn:encode_function_body", "V11_emit.update_ids_and_encode.*", "V11_emit.fn:update_ids_and_encode"],
+        "glue": [V13_TRUST] + [PARSE_IDS_GLUE] + V11_TRUST + V12_TRUST + [ENCODE_GLUE, "export / start / element-segment remapping lines in encode_internal", "'output validates' (wasmparser validator) is not decided"],
         "design_ref": "DESIGN.md §4 V2 V3, §5 C06",
     },
     "C07": {
         "title": "Global references stay bound to the same global across edits",
-        "units": ["V2_reindex", "V3_remap", "V6b_api2", "V11_emit", "V12_sections"],
+        "units": ["V2_reindex", "V3_remap", "V6b_api2", "V11_emit", "V12_sections", "V13_constexpr"],
         "kani_thorough": ["k5_spec_global_get"],
         "obligations": ["K:k5_spec_global_get"] + V2_GENERIC + v2_inst("Global", "ModuleGlobals") + V6_GLOBALS + [
             "V3_remap.refers_to_global.*", "V3_remap.fn:refers_to_global", "V3_remap.update_global_instr.*", "V3_remap.fn:update_global_instr",
             "V3_remap.fix_op_id_mapping.*", "V3_remap.fn:fix_op_id_mapping", "V3_remap.InitInstr.*", "V3_remap.fn:InitInstr::fix_id_mapping"],
-        "obligations_extra": PARSE_IDS_GLOBALS + V12_CEXPR + V12_ELEMS + V12_TABLES + V12_GLOBALS + V12_EXPORTS + V12_DATA + ["V11_emit.fn:encode_function_body", "V11_emit.update_ids_and_encode.*", "V11_emit.fn:update_ids_and_encode"],
-        "glue": [PARSE_IDS_GLUE] + V11_TRUST + V12_TRUST + [ENCODE_GLUE, "global export emission; table/element constant expressions", "'output validates' is not decided"],
+        "obligations_extra": V13_CONSTEXPR + PARSE_IDS_GLOBALS + V12_CEXPR + V12_ELEMS + V12_TABLES + V12_GLOBALS + V12_EXPORTS + V12_DATA + ["V11_emit.fn:encode_function_body", "V11_emit.update_ids_and_encode.*", "V11_emit.fn:update_ids_and_encode"],
+        "glue": [V13_TRUST] + [PARSE_IDS_GLUE] + V11_TRUST + V12_TRUST + [ENCODE_GLUE, "global export emission; table/element constant expressions", "'output validates' is not decided"],
         "design_ref": "DESIGN.md §4 V2 V3, §5 C07",
     },
     "C08": {
@@ -253,13 +256,13 @@ PROPS = {
     },
     "C30": {
         "title": "Module-level additions appear exactly as requested",
-        "units": ["V6b_api2", "V3_remap", "V12_sections"],
+        "units": ["V6b_api2", "V3_remap", "V12_sections", "V13_constexpr"],
         "kani": ["k1_valtype_roundtrip", "k1_valtype_roundtrip_exn_cont", "k4_v128_bytes_preserved", "k4_ieee32_from_float_bits", "k4_ieee64_from_float_bits"],
-        "kani_thorough": ["k4_initexpr_numeric_const_matches_upstream"],   # ~4 min of CBMC: thorough tier only
-        "obligations": ["K:k1_valtype_roundtrip*", "K:k4_*"] + V6_GLOBALS + V6_MEMS + ["V6b_api2.add_data.*", "V6b_api2.fn:Module::add_data", "V6b_api2.ModuleExports.add_export_*", "V6b_api2.fn:ModuleExports::add_export_*",
+        "kani_thorough": ["k4_initexpr_numeric_const_matches_upstream"] + ["k5_spec_global_get", "k5_spec_ref_func", "k5_spec_struct_new", "k5_spec_struct_new_default", "k5_spec_array_new", "k5_spec_array_new_default", "k5_spec_ref_i31"],   # ~4 min of CBMC each set: thorough tier only
+        "obligations": ["K:k1_valtype_roundtrip*", "K:k4_*", "K:k5_spec_*"] + V6_GLOBALS + V6_MEMS + ["V6b_api2.add_data.*", "V6b_api2.fn:Module::add_data", "V6b_api2.ModuleExports.add_export_*", "V6b_api2.fn:ModuleExports::add_export_*",
                         "V3_remap.InitInstr.*", "V3_remap.fn:InitInstr::fix_id_mapping"],
-        "obligations_extra": V12_MEMS + V12_GLOBALS + V12_EXPORTS + V12_DATA,
-        "glue": V12_TRUST + [ENCODE_GLUE, "DataType -> ValType (content type) is abstract here (valtype_of); bit-exactness of constants (InitExpr::to_wasmencoder_type) and the emission of limits / payloads are not under contract at this commit"],
+        "obligations_extra": V13_CONSTEXPR + V12_MEMS + V12_GLOBALS + V12_EXPORTS + V12_DATA,
+        "glue": [V13_TRUST] + V12_TRUST + [ENCODE_GLUE, "DataType -> ValType (content type) is abstract here (valtype_of); bit-exactness of constants (InitExpr::to_wasmencoder_type) and the emission of limits / payloads are not under contract at this commit"],
         "design_ref": "DESIGN.md §5 C30",
     },
     "C29": {
